@@ -350,6 +350,25 @@ theorem find_field_perm {l l' : List FieldDef} (hp : l'.Perm l) (hn : (l.map (·
   apply perm_lookup (hp.map _)
   simpa [List.map_map, Function.comp_def] using hn
 
+/-- the root-kind clause of one operation is preserved -/
+theorem TsEquiv.rootIsObject_eq (E : TsEquiv ts ts') {sd sd' : SchemaDoc} (hs : sd'.schema.Perm sd.schema)
+    (op : Bytes) (dflt : Name) : Spec.rootIsObject sd' ts' op dflt = Spec.rootIsObject sd ts op dflt := by
+  have hp : ((ts'.schemaDefs.flatMap (·.opTypes)).filter (·.op == op)).Perm
+      ((ts.schemaDefs.flatMap (·.opTypes)).filter (·.op == op)) := (E.sdefs.flatMap_right _).filter _
+  unfold Spec.rootIsObject
+  simp only [hp.all_eq, hp.isEmpty_eq, hs.isEmpty_eq]
+  have hobj : ∀ n, OptEquiv (ts.type? n) (ts'.type? n) := E.typeQ
+  congr 1
+  · congr 1
+    funext o
+    have := hobj o.type
+    cases h1 : ts.type? o.type <;> cases h2 : ts'.type? o.type <;> rw [h1, h2] at this <;> simp only [OptEquiv] at this
+    all_goals first | rfl | simp only [this.kind]
+  · congr 1
+    have := hobj dflt
+    cases h1 : ts.type? dflt <;> cases h2 : ts'.type? dflt <;> rw [h1, h2] at this <;> simp only [OptEquiv] at this
+    all_goals first | rfl | simp only [this.kind]
+
 /-- every clause about the merged type system is preserved -/
 theorem TsEquiv.clauses (E : TsEquiv ts ts') :
     (Spec.uniqueFieldNames ts = true → Spec.uniqueFieldNames ts' = true) ∧
@@ -593,7 +612,12 @@ theorem WellFormed_perm {sd sd' : SchemaDoc} (hp : SourcesPerm sd sd')
     directiveArgsDeclared := c19 h.directiveArgsDeclared
     noSelfReference := c20 h.noSelfReference
     appliedNamesNotReserved := c21 h.appliedNamesNotReserved
-    rootOperationTypesOnce := by rw [rootOperationTypesOnce_perm hp]; exact h.rootOperationTypesOnce }
+    rootOperationTypesOnce := by rw [rootOperationTypesOnce_perm hp]; exact h.rootOperationTypesOnce
+    rootTypesAreObjects := by
+      have := h.rootTypesAreObjects
+      unfold Spec.rootTypesAreObjectsDoc at this ⊢
+      simp only [E.rootIsObject_eq hp.schema]
+      exact this }
 
 theorem WellFormed_perm_iff {sd sd' : SchemaDoc} (hp : SourcesPerm sd sd')
     (hext : ∀ e ∈ sd.extensions, e.builtIn = false) : Spec.WellFormed sd' ↔ Spec.WellFormed sd :=
